@@ -3149,7 +3149,15 @@ M("a10-u16-literal-bound-too-wide", "C03", "fire A10", "src/scan.rs",
   """                                "u16" if n <= u32::MAX as u64 => {""", "u16 literals up to u32::MAX pass the scanner")
 REVERT("revert-array-literal-elements-compared", "C05", "fire S17", "259fc4b", "pre-fix tree: a re-typed array literal takes its first element's type")
 REVERT("revert-range-signed-elements", "C05", "fire S18", "98fcf78", "pre-fix tree: the Range arm re-types only for unsigned element types")
-REVERT("revert-const-expr-array-parties", "C05", "fire S19", "fd784a1", "pre-fix tree: a single [T; const { .. }] parameter is one party")
+M2("s19-const-expr-array-not-split", "C05", "fire S19", [
+  ("src/compile.rs", """        let const_expr_size;
+""", ""),
+  ("src/compile.rs", """                Type::ArrayConstExpr(elem_ty, size) => {
+                    const_expr_size = resolve_const_expr_usize(size, &const_sizes, USIZE_BITS);
+                    Some((param, elem_ty, &const_expr_size))
+                }
+                _ => None,""", """                _ => None,""")],
+  "pre-fix behaviour of fd784a1 (its REVERT no longer applies after b9081bb): a single [T; const { .. }] parameter is one party")
 REVERT("revert-no-input-bits", "C05", "fire S16", "9c49737", "pre-fix tree: circuits without any input bit are built")
 M("s16-quiet-any-form", "C05", "quiet", "src/compile.rs",
   """        if input_gates.iter().all(|bits| *bits == 0) {""",
@@ -3236,6 +3244,36 @@ M("k8-quiet-sum-named", "C12", "quiet", "src/compile.rs",
   """                    $wrap(lhs.wrapping_add(rhs), bits)""",
   """                    let sum = lhs.wrapping_add(rhs);
                     $wrap(sum, bits)""", "same reduction, sum named")
+M("b6-output-marked-before-inputs-looked-up", "C11", "fire B6", "src/convert.rs",
+  """            for &input_wire in input_wires.iter() {
+                if !is_assigned[input_wire] {
+                    return Err(FromBristolError::InvalidWireIndex(input_wire));
+                }
+            }
+            if is_assigned[output_wire] {
+                return Err(FromBristolError::InvalidWireIndex(output_wire));
+            }
+            is_assigned[output_wire] = true;
+""",
+  """            if is_assigned[output_wire] {
+                return Err(FromBristolError::InvalidWireIndex(output_wire));
+            }
+            is_assigned[output_wire] = true;
+            if let Some(&unassigned) = input_wires.iter().find(|&&w| !is_assigned[w]) {
+                return Err(FromBristolError::InvalidWireIndex(unassigned));
+            }
+""", "seed C11-i: a gate line that reads its own output is accepted")
+M("b6-quiet-inputs-looked-up-with-find", "C11", "quiet", "src/convert.rs",
+  """            for &input_wire in input_wires.iter() {
+                if !is_assigned[input_wire] {
+                    return Err(FromBristolError::InvalidWireIndex(input_wire));
+                }
+            }
+""",
+  """            if let Some(&unassigned) = input_wires.iter().find(|&&w| !is_assigned[w]) {
+                return Err(FromBristolError::InvalidWireIndex(unassigned));
+            }
+""", "same look-ups written with find, still before the mark")
 M("b5-file-length-guard-dropped", "C11", "quiet", "src/convert.rs",
   """            if wires_num - input_wires > lines.len() {
                 return Err(FromBristolError::MalformedLine(line_str));
